@@ -6,6 +6,7 @@ CONSTANTS
   DeleteByName = TRUE
   ClaimIgnoresCancel = FALSE
   PrefixCancellers = {}
+  BlockingSend = FALSE
   DropOnClaim = FALSE
   MaxRuns = 1
 INVARIANTS TypeOK AtMostOnce NoOverlap NoPanic NoLostRun NotDropped CancelBranchNoRun NameReusable NameSlotUnique SuccessorReachable LockFreeAtEnd
